@@ -556,15 +556,27 @@ def wgPerCU (total sumCU : Nat) : Nat :=
 /-- `(grid-1)/wg + 1` in `uint32` -/
 def numWG (grid wg : Nat) : Nat := ((grid + 4294967296 - 1) % 4294967296) / wg + 1
 
+/-- last element (`wgAllocated` after the loop) -/
+def lastD : List Nat → Nat → Nat
+  | [], d => d
+  | x :: xs, _ => lastD xs x
+
+/-- number of ranges `[d[i], d[i+1])` that contain `id` — the work-group filter of
+    `processUnifiedMultiGPULaunchKernelCommand` accepts `id` on GPU `i` iff
+    `wgDist[i] ≤ id < wgDist[i+1]` -/
+def countOwners (id : Nat) : List Nat → Nat
+  | a :: b :: rest => (if a ≤ id ∧ id < b then 1 else 0) + countOwners id (b :: rest)
+  | _ => 0
+
 inductive WgRes
   | dist (d : List Nat)
   | fault (k : String)
-deriving Repr
+deriving DecidableEq, Repr
 
 def distributeWG (cus : List Nat) (total : Nat) : WgRes :=
   if cus.sum = 0 then .fault "divzero" else
   let d := wgDist (wgPerCU total cus.sum) cus 0
-  if d.getLastD 0 < total then .fault "notall" else .dist d
+  if lastD d 0 < total then .fault "notall" else .dist d
 
 /-- number of work-groups `id < total` with `d[i] ≤ id < d[i+1]` -/
 def rangeCounts (total : Nat) : List Nat → List Nat
